@@ -54,6 +54,30 @@ def build(rng, tier):
         hist = engcheck.std_history(inst, "lsp", inp)
         if j % 2 == 1: hist = [o.replace("eng run ", "eng runpl ") for o in hist]
         cases.append(engcheck.Case("lsp", inst, hist, {"inp": inp, "kind": "shortest-paths"}))
+    # forced shape "lattice column bound to the TOP value": the shortest-path lattice (Dual min, every edge weighs >= 1) read with its value column bound to the constant 1 -
+    # `direct(x, y) <-- query(x), sp(x, y, 1)` and `one(y) <-- sp(w, y, 1)`: a monotone use (no value lies above the top), which goes through lattice indices that CONTAIN the
+    # value column ([0,2] and [2] of an arity-3 lattice: as many columns as the key index / fewer), several rows per index key, rows reaching the top in different iterations
+    lt = gen.sp_program()
+    lt = {"rels": lt["rels"] + [{"arity": 2}, {"arity": 1}], "rules": lt["rules"] + [
+        {"heads": [(5, [("var", 0), ("var", 1)])], "body": [("cl", 1, [("v", 0)], []), ("cl", 2, [("v", 0), ("v", 1), ("e", 1)], [])]},
+        {"heads": [(6, [("var", 1)])], "body": [("cl", 2, [("v", 7), ("v", 1), ("e", 1)], [])]}]}
+    progs["ltop"] = lt
+    mods.append(("ltop", eng.rs_module("ltop", lt)))
+    mods.append(("ltopp", eng.rs_module("ltopp", lt, macro="ascent_par")))
+    progs["ltopp"] = lt
+    for j in range(10 if tier == "quick" else 40):
+        g = rng.fork(f"ltop{j}")
+        inp = gen.sp_input(g)
+        n = 1 + max(max(a, b) for a, b, _ in inp[0])
+        inp[0] = list(dict.fromkeys(inp[0] + [(g.below(n), g.below(n), 1) for _ in range(g.range(1, 4))]))
+        inp[0] = list({(a, b): (a, b, w) for a, b, w in inp[0] if a != b}.values())
+        inp[1] = [(x,) for x in range(n) if g.chance(2, 3)] or [(0,)]
+        inp[5], inp[6] = [], []
+        for pid in ("ltop", "ltopp"):
+            inst = f"{pid}_{j}"
+            hist = engcheck.std_history(inst, pid, inp)
+            if pid == "ltopp": hist[0] += f" par {g.choice([1, 2, 4, 8])}"
+            cases.append(engcheck.Case(pid, inst, hist, {"inp": inp, "kind": "lattice-column-bound-to-top" + ("-par" if pid == "ltopp" else "")}))
     return progs, mods, cases
 
 
